@@ -270,6 +270,33 @@ theorem same_names_collision_iff (a b : Labels) (h : namesHash a = namesHash b) 
     valuesHash a = valuesHash b ↔ fnvFrom (namesHash a) (valueBuf a) = fnvFrom (namesHash a) (valueBuf b) := by
   rw [values_hash_continues_names_hash, values_hash_continues_names_hash, h]
 
+/-- the vector key depends on the label NAMES only -/
+theorem names_hash_depends_on_names_only (a b : Labels) (h : a.sorted.map (·.1) = b.sorted.map (·.1)) :
+    namesHash a = namesHash b := by
+  rw [namesHash_eq, namesHash_eq, names_hash_input_congr a b h]
+
+/-- **What "hash collisions are assumed away" means, as a hypothesis**: the registry model identifies a series by its
+    sorted label list; the code identifies it by `valuesHash`. For separator-free label sets the two coincide on every
+    pair of label sets whose hash inputs do not collide under FNV-64a (`hinj`, the only assumption - an equation between
+    two concrete 64-bit values, false for at most a 2^-64 fraction of pairs and refutable by evaluation for any given
+    pair): the same series iff the same labels. -/
+theorem same_series_iff_same_labels (a b : Labels) (ha : NoSep a) (hb : NoSep b)
+    (hinj : fnv64a (valuesHashInput a) = fnv64a (valuesHashInput b) → valuesHashInput a = valuesHashInput b) :
+    valuesHash a = valuesHash b ↔ a.sorted = b.sorted := by
+  rw [valuesHash_eq, valuesHash_eq]
+  constructor
+  · intro h; exact values_hash_input_injective a b ha hb (hinj h)
+  · intro h; rw [values_hash_input_congr a b h]
+
+/-- the same for vectors: the same vector key iff the same label names, unless the two name inputs collide -/
+theorem same_vector_iff_same_names (a b : Labels) (ha : NoSep a) (hb : NoSep b)
+    (hinj : fnv64a (namesHashInput a) = fnv64a (namesHashInput b) → namesHashInput a = namesHashInput b) :
+    namesHash a = namesHash b ↔ a.sorted.map (·.1) = b.sorted.map (·.1) := by
+  rw [namesHash_eq, namesHash_eq]
+  constructor
+  · intro h; exact names_hash_input_injective a b ha hb (hinj h)
+  · intro h; rw [names_hash_input_congr a b h]
+
 -- known answers of FNV-64a (the published test vectors of hash/fnv: "", "a", "ab", "abc")
 example : fnv64a [] = 0xcbf29ce484222325#64 ∧ fnv64a [97] = 0xaf63dc4c8601ec8c#64 ∧
     fnv64a [97, 98] = 0x089c4407b545986a#64 ∧ fnv64a [97, 98, 99] = 0xe71fa2190541574b#64 := by decide
